@@ -475,24 +475,24 @@ def prove_ineq_sos(arena, doc, a, op, b, budget, stats):
             if v.result == "unsat":
                 eqs.append((x, y))
     free = set(cand)
+    goal = [f"(assert (not ({op} {arena.name(a)} {arena.name(b)})))"]
+    # first attempt: only the decisions that are small once the sums of squares are opaque (fast when it works)
+    small = [(x, o, y, r) for (x, o, y, r) in trace if len(arena.cone({x, y}, stop=free)) <= 60]
+    roots2 = {a, b}
+    for (x, _o, y, _r) in small:
+        roots2.update((x, y))
+    defs2, ids2 = arena.abstract_definitions(roots2, free)
+    idset = set(ids2)
+    lem2 = [f"(assert (= {arena.name(x)} {arena.name(y)}))" for (x, y) in eqs if x in idset and y in idset]
+    pc2 = [f"(assert {arena.rel(x, o, y, r)})" for (x, o, y, r) in small]
+    v2, _ = smt.solve_text(defs2 + lem2 + pc2, goal, min(budget.full_s, 40), uf=False, stats=stats)
+    if v2.result == "unsat":
+        return v2
+    # second attempt: the whole path condition
     defs, _ids = arena.abstract_definitions(roots, free)
     lemmas = [f"(assert (= {arena.name(x)} {arena.name(y)}))" for (x, y) in eqs]
     pc = [f"(assert {arena.rel(x, o, y, r)})" for (x, o, y, r) in trace]
-    goal = [f"(assert (not ({op} {arena.name(a)} {arena.name(b)})))"]
     v, _ = smt.solve_text(defs + lemmas + pc, goal, budget.full_s, uf=False, stats=stats)
-    if v.result != "unsat":
-        # second attempt: only the decisions that are small once the sums of squares are opaque
-        small = [(x, o, y, r) for (x, o, y, r) in trace if len(arena.cone({x, y}, stop=free)) <= 60]
-        roots2 = {a, b}
-        for (x, _o, y, _r) in small:
-            roots2.update((x, y))
-        defs2, ids2 = arena.abstract_definitions(roots2, free)
-        idset = set(ids2)
-        lem2 = [f"(assert (= {arena.name(x)} {arena.name(y)}))" for (x, y) in eqs if x in idset and y in idset]
-        pc2 = [f"(assert {arena.rel(x, o, y, r)})" for (x, o, y, r) in small]
-        v2, _ = smt.solve_text(defs2 + lem2 + pc2, goal, budget.full_s, uf=False, stats=stats)
-        if v2.result == "unsat":
-            return v2
     return v
 
 
